@@ -5,11 +5,18 @@
 # Works in a scratch worktree under /tmp, removed at the end. Prints PASS/FAIL per step.
 set -u
 D=$(readlink -f "$1")
-W=/tmp/vs-$$
-trap 'git -C /repo worktree remove --force $W >/dev/null 2>&1; rm -rf $W' EXIT
+# persistent scratch worktree (keeps its target/ dir so that builds are incremental); locked
+mkdir -p /tmp/vscache
+exec 9>/tmp/vscache/lock; flock 9
+W=/tmp/vscache/w
 export CARGO_NET_OFFLINE=true
-git -C /repo worktree add --detach $W HEAD >/dev/null 2>&1 || { echo "FAIL worktree"; exit 2; }
+if [ ! -e $W/.git ]; then
+  git -C /repo worktree prune
+  git -C /repo worktree add --detach $W HEAD >/dev/null 2>&1 || { echo "FAIL worktree"; exit 2; }
+fi
 cd $W
+git checkout -q --detach "$(git -C /repo rev-parse HEAD)"; git reset -q --hard; git clean -qfd
+trap 'cd $W && git reset -q --hard && git clean -qfd' EXIT
 DEMO=$(python3 -c "import json,sys;print(json.load(open('$D/meta.json'))['demo_cmd'])")
 echo "demo_cmd: $DEMO"
 git apply "$D/patch.diff" || { echo "FAIL patch does not apply"; exit 1; }
